@@ -28,6 +28,9 @@ YearV == [ absent |-> None,
            textempty |-> Some([type |-> TEXT, data |-> <<>>]),
            textabc |-> Some([type |-> TEXT, data |-> <<97, 98, 99>>]),
            bin3 |-> Some([type |-> BINARY, data |-> <<0, 7, 216>>]),
+           bin0 |-> Some([type |-> BINARY, data |-> <<>>]),
+           bin1 |-> Some([type |-> BINARY, data |-> <<9>>]),
+           bin5 |-> Some([type |-> BINARY, data |-> <<0, 0, 7, 216, 1>>]),
            textmax |-> Some([type |-> TEXT, data |-> <<52, 50, 57, 52, 57, 54, 55, 50, 57, 53>>]),
            textover |-> Some([type |-> TEXT, data |-> <<52, 50, 57, 52, 57, 54, 55, 50, 57, 54>>]),
            text65536 |-> Some([type |-> TEXT, data |-> <<54, 53, 53, 51, 54>>]),
